@@ -43,7 +43,8 @@ ASSUMPTIONS = [
     "int vs equal-valued float, np scalar vs python scalar, 0-d array vs scalar and list vs array of "
     "equal elements count as equal; a string never equals a number",
     "an open handle is rewound by the caller before loading a pickle (documented nowhere, what the "
-    "in-tree tests do); BytesIO objects never count as 'existing files'",
+    "in-tree tests do); BytesIO objects never count as 'existing files'; a pickle is read from the "
+    "position the caller put the handle at (pkl_stream: objects in sequence, caller-written header)",
     "pickle has no overwrite guard (the property only demands it for HDF5 paths)",
     "models have no save() of their own: they round-trip inside a Result and through "
     "to_dict/model_from_dict",
